@@ -60,6 +60,9 @@ DEVIATIONS = [
     ("pre", ["refinement"]), ("pre", ["filter"]), ("pre", ["confidence"]), ("pre", ["cbca"]),
     ("post", ["refinement"]), ("post", ["filter"]), ("post", ["filter", "refinement"]),
     ("validation", "pre"), ("validation", "post"), ("validation", "pre-fill"),
+    # pandora.run called on the user's own pipeline (not completed by a check), the multiscale parameters that equal
+    # their documented defaults (num_scales 2, scale_factor 2, marge 1) left out
+    ("unchecked", True),
 ]
 
 INTERVALS = [(-3, 3), (1, 5), (-4, 0), (0, 0), (-4, 4)]
@@ -186,8 +189,13 @@ def build(case):
             steps.append(("refinement", P.VFIT))
         if s == "filter":
             steps.append(("filter", P.MEDIAN))
-    steps.append(("multiscale", {"multiscale_method": "fixed_zoom_pyramid", "num_scales": case["S"],
-                                 "scale_factor": case["f"], "marge": case["marge"]}))
+    ms = {"multiscale_method": "fixed_zoom_pyramid", "num_scales": case["S"], "scale_factor": case["f"],
+          "marge": case["marge"]}
+    if case.get("unchecked"):
+        for k, dflt in (("num_scales", 2), ("scale_factor", 2), ("marge", 1)):
+            if ms[k] == dflt:
+                del ms[k]
+    steps.append(("multiscale", ms))
     for s in case["post"]:
         if s == "refinement":
             steps.append(("refinement", P.VFIT))
@@ -261,7 +269,7 @@ def run_case(case):
         viol.append({"clause": clause, "key": f"C15/{clause}/{cls}{reuse}", "detail": f"{detail} | case={case}"})
 
     machine = None
-    do_check = True
+    do_check = not case.get("unchecked")
     if case.get("prior"):
         # machine reuse: the same PandoraMachine object first checked and ran another multiscale job
         from pandora.state_machine import PandoraMachine  # pylint: disable=import-outside-toplevel
